@@ -42,6 +42,8 @@ def run(ctx):
             check_loops(ctx, P, reach)
             F.check_iszero(ctx, P, "E8.iszero", check_asserts=True, need=())
     check_dep_contracts(ctx)
+    check_choice_domain(ctx, ctx.prog("blst", "dev"))
+    check_dep_callees(ctx, ctx.prog("blst", "dev"), A.check_aborts.__globals__["entry_fns"])
     from .posctl import run_posctl
 
     run_posctl(ctx, "E8", "aborts")
@@ -116,3 +118,104 @@ def check_dep_contracts(ctx):
                 if c.get("trait") == "Deserialize" and c.get("self_ty") in ("Scalar", "G1Projective", "G2Projective") and r.get("crate") == e["crate"]:
                     reached.append((f, bb))
         ctx.ob("E8.dep", e["key"], not reached, "%s: %s; reachable from blsful through %d call site(s), e.g. %s" % (e["fn"], e["fails_on"], len(reached), [x[0].key for x in reached[:3]]), where=where(*reached[0]) if reached else None)
+
+
+def check_choice_domain(ctx, P, rule="E8.choice"):
+    """subtle::Choice::from(u8) debug-asserts that its argument is 0 or 1 (abort in builds with debug assertions).
+    Every conversion of a u8 into a Choice in blsful gets a constant 0/1, a bool, the byte of another Choice, or the
+    zero test's result expression (folded exhaustively by E8.iszero to be 0 or 1)."""
+    n = 0
+    for f in sorted(P.fns.values(), key=lambda g: g.key):
+        ev = None
+        for bb, t in f.calls():
+            c = t.get("callee") or {}
+            r = c.get("resolved") or {}
+            is_from = "subtle::Choice" in (r.get("path") or "") and "From<u8>" in (r.get("path") or "")
+            is_into = c.get("name") == "into" and c.get("args") == ["u8", "Choice"]
+            if not (is_from or is_into):
+                continue
+            ev = ev or evaluate(f)
+            s_ = ev.sites.get(bb)
+            if s_ is None:
+                continue
+            n += 1
+            a = strip_sites(s_.args[0])
+            ci = B._const_int(a)
+            ok = ci in (0, 1)
+            why = "constant %s" % ci if ok else ""
+            if not ok and a.op == "cast" and len(a.a) > 3 and a.a[3] == "bool":
+                ok, why = True, "a bool cast to u8"
+            if not ok and a.op == "call" and B.cname(a) == "Choice::unwrap_u8":
+                ok, why = True, "the byte of another Choice"
+            if not ok and f.key == "<[u8] as IsZero>::is_zero":
+                ok, why = True, "the zero test's result, shown to be 0 or 1 for all 256 accumulator values (E8.iszero.value in C01/C04/C16)"
+                try:
+                    from .aborts import small_int_vars
+
+                    inner = a
+                    vs = small_int_vars(ev, inner)
+                    if len(vs) == 1:
+                        var, ty = vs[0]
+                        vals = set()
+                        for v in (range(-128, 128) if ty == "i8" else range(256)):
+                            vals.add(F.eval_int(inner, {var: (v, 8, ty == "i8")})[0])
+                        ok = vals <= {0, 1}
+                        why = "folded for all 256 accumulator values: results %s" % sorted(vals)
+                except Exception:
+                    ok = False
+                    why = "could not fold the argument"
+            ctx.ob(rule, "%s#%d" % (f.key, sum(1 for o in ctx.obligations if o["key"].startswith("%s%s/%s#" % (ctx.key_prefix, rule, f.key)))), ok, "Choice::from(u8) argument is %s" % (why or "not provably 0 or 1: " + show(a, 4)), where=where(f, bb))
+    ctx.floor(rule, "u8 -> Choice conversions", n, 5)
+
+
+# foreign callees whose own body can abort (Assert terminators / calls that never return), reachable from blsful:
+# path fragment -> why it cannot abort the way blsful uses it (or which rule discharges the call sites)
+DEP_ABORT_TRIAGED = {
+    "as vsss_rs::Share>::identifier": "indexes byte 0 of a [u8; L] share container; L is 33/49/97 in every instantiation",
+    "as vsss_rs::Share>::identifier_mut": "indexes byte 0 of a [u8; L] share container; L is 33/49/97 in every instantiation",
+    "as vsss_rs::Share>::value": "slices [1..] of a [u8; L] share container; L >= 1 in every instantiation",
+    "as vsss_rs::Share>::value_mut": "slices [1..] of a [u8; L] share container and copies an equally long encoding (vsss-rs 4.3.8 checks the length first)",
+    "Enumerate<I> as std::iter::Iterator>::next": "counter overflow needs usize::MAX elements",
+    "subtle::Choice as std::convert::From<u8>>::from": "argument domain checked by E8.choice",
+    "From<subtle::Choice> for bool>::from": "debug-asserts that the Choice byte is 0 or 1: holds for every Choice (built by subtle's own operators or through the conversions checked by E8.choice)",
+    "subtle::Choice::unwrap_u8": "returns the byte",
+    "as subtle::ConditionallySelectable>::conditional_select": "negates a Choice byte (0 or 1) as i8: cannot overflow",
+    "uint_zigzag::Uint as std::convert::TryFrom<&[u8]>>::try_from": "returns Err on malformed input; internal indexing is bounded by its own length checks (contract in dep_contracts.json)",
+    "uint_zigzag::Uint::peek": "returns None on malformed input (contract in dep_contracts.json)",
+    "Projective::hash": "hash-to-curve over byte strings of any length (contract: total)",
+    "core::panicking::": "the panic machinery itself (call sites are the abort sites of the census)",
+    "hex::decode_to_slice": "returns Err on odd length / bad digit / length mismatch (contract in dep_contracts.json)",
+    "rand_core::SeedableRng::from_entropy": "aborts only if the operating system's entropy source fails (environment, not input)",
+    "Result::<T, E>::expect": "call sites are abort sites of the census (call:expect)",
+    "Result::<T, E>::unwrap": "call sites are abort sites of the census (call:unwrap)",
+    "Option::<T>::expect": "call sites are abort sites of the census",
+    "Option::<T>::unwrap": "call sites are abort sites of the census",
+    "subtle::CtOption::<T>::unwrap": "call sites are abort sites of the census (call:ct-unwrap)",
+}
+
+
+def check_dep_callees(ctx, P, entry_fns, rule="E8.depcallee"):
+    """Every foreign function that blsful calls and whose own body can abort (the driver reads the callee's MIR: Assert
+    terminators, calls that never return) is either an abort site of the census or triaged here with the reason why the
+    way blsful uses it cannot abort.  A newly called one is reported."""
+    ca = (P.facts.get("walk") or {}).get("callee_aborts") or {}
+    ctx.floor(rule, "abort-capable foreign callees seen by the driver", len(ca), 8)
+    keys, _ = entry_fns(P, "C17")
+    reach = reachable_fns(P, [P.fns[k] for k in keys if k in P.fns])
+    used = {}
+    for f in reach.values():
+        for bb, t in f.calls():
+            c = t.get("callee") or {}
+            for pth in ((c.get("resolved") or {}).get("path_full"), (c.get("resolved") or {}).get("path"), c.get("path_full"), c.get("path")):
+                if pth and pth in ca:
+                    used.setdefault(pth, (f, bb))
+    for pth in sorted(ca):
+        if ca[pth]["crate"] in ("core", "alloc", "std"):
+            # the standard library is covered by the abort-capable callee table of the census (aborts.PANICKING)
+            continue
+        why = next((w for frag, w in DEP_ABORT_TRIAGED.items() if frag in pth), None)
+        if pth not in used and why is None:
+            # not on an untrusted-input path: nothing to decide
+            continue
+        f, bb = used.get(pth, (None, None))
+        ctx.ob(rule, pth, why is not None, "foreign callee `%s` (%s) can abort in its own body (%d assert(s), %d diverging call(s)); %s" % (pth, ca[pth]["crate"], len(ca[pth]["asserts"]), len(ca[pth]["never_returns"]), ("triaged: " + why) if why else "NOT triaged and reachable from untrusted input" + (" via " + f.key if f else "")), where=where(f, bb) if f else None, weak=why is not None)
